@@ -67,7 +67,7 @@ func init() {
 			"point (j = 0..5 Next calls, r = 1..6 scan requests); then the scan cases of C06, each ended in one of the ways {exhausted, Close after j Next calls, context cancelled " +
 			"between fetches after j calls, context cancelled while the r-th scan request is unanswered, non-retryable " +
 			"RPC error on the r-th scan request, retryable error on the r-th request, server says more_results=false at " +
-			"the r-th response}, with and without scanner renewal; (j, r) drawn over the whole length of the scan. Judged: " +
+			"the r-th response (no request may follow), response to the r-th request lost}, with and without scanner renewal, slow consumers, held close acknowledgements; (j, r) drawn over the whole length of the scan. Judged: " +
 			"the (result, error) sequence of Next against the automaton rows* (error)? EOF*, rows being a prefix of the " +
 			"model, cells delivered before a failing request = cells handed out (the error carries the row being assembled), Close latency/idempotence, and conservation opened = exhausted + closed per scan on the simulated " +
 			"servers. distinct = (scan case, ending, j, r); all non-trivial",
